@@ -50,33 +50,49 @@ def check_one(rep: Report, rng: Rng, spec: Spec, cfg0: dict, exhaustive: bool):
              sample={"class": spec.name, "cfg": public_cfg(cfg), "n": n_target, "compositions": len(comps)} if rep.evaluations % 211 == 0 else None)
     rep.count(f"class:{spec.name}"); rep.count(f"n:{n_target}")
     for comp in comps:
-        if min(comp) < spec.min_samples and spec.name in ("Covariance",):
-            pass
-        parts = split_batch(spec, whole, comp)
-        try:
-            o = observe(fed(spec, cfg, parts))
-        except Exception as e:  # noqa: BLE001
-            o = ("err", type(e).__name__, repr(e)[:120])
         rep.evaluations += 1
-        if not same_obs(base, o, spec.tol):
-            rep.violation(f"C12|{spec.name}|batching-changes-result",
-                          f"{spec.name}{public_cfg(cfg)}: one batch of {n_target} samples gives {obs_json(base)} but batch sizes {comp} give {obs_json(o)}",
-                          {"class": spec.name, "cfg": public_cfg(cfg), "samples": whole.describe(), "batch_sizes": comp,
-                           "single": obs_json(base), "batched": obs_json(o)})
+        v = batching_oracle(spec, cfg, whole, base, comp)
+        if v:
+            rep.violation(*v)
             return
     if not is_ordered(spec, cfg) and spec.kind != "retrieval_ordered":
         perms = list(itertools.permutations(range(n_target))) if n_target <= 4 and exhaustive else [rand_perm(rng, n_target) for _ in range(4)]
         for perm in perms[:24]:
-            pb = permute_batch(spec, whole, list(perm))
             comp = rand_comp(rng, n_target)
-            o = observe(fed(spec, cfg, split_batch(spec, pb, comp)))
             rep.evaluations += 1
-            if not same_obs(base, o, spec.tol):
-                rep.violation(f"C12|{spec.name}|order-changes-result",
-                              f"{spec.name}{public_cfg(cfg)}: samples in order give {obs_json(base)}, permuted by {list(perm)} (batches {comp}) give {obs_json(o)}",
-                              {"class": spec.name, "cfg": public_cfg(cfg), "samples": whole.describe(), "perm": list(perm), "batch_sizes": comp,
-                               "single": obs_json(base), "permuted": obs_json(o)})
+            v = order_oracle(spec, cfg, whole, base, list(perm), comp)
+            if v:
+                rep.violation(*v)
                 return
+
+
+def batching_oracle(spec: Spec, cfg: dict, whole, base, comp):
+    """`whole` (all samples in one update, observed as `base`) against the same samples fed as batches of sizes `comp`.
+    None when the results agree, else (signature, what, replay dict).  Used by the sweep and by replay()."""
+    n = sum(comp)
+    parts = split_batch(spec, whole, comp)
+    try:
+        o = observe(fed(spec, cfg, parts))
+    except Exception as e:  # noqa: BLE001
+        o = ("err", type(e).__name__, repr(e)[:120])
+    if not same_obs(base, o, spec.tol):
+        return (f"C12|{spec.name}|batching-changes-result",
+                f"{spec.name}{public_cfg(cfg)}: one batch of {n} samples gives {obs_json(base)} but batch sizes {comp} give {obs_json(o)}",
+                {"class": spec.name, "cfg": public_cfg(cfg), "samples": whole.describe(), "batch_sizes": comp,
+                 "single": obs_json(base), "batched": obs_json(o)})
+    return None
+
+
+def order_oracle(spec: Spec, cfg: dict, whole, base, perm, comp):
+    """`whole` in one update (`base`) against the samples permuted by `perm` and fed as batches of sizes `comp`."""
+    pb = permute_batch(spec, whole, list(perm))
+    o = observe(fed(spec, cfg, split_batch(spec, pb, comp)))
+    if not same_obs(base, o, spec.tol):
+        return (f"C12|{spec.name}|order-changes-result",
+                f"{spec.name}{public_cfg(cfg)}: samples in order give {obs_json(base)}, permuted by {list(perm)} (batches {comp}) give {obs_json(o)}",
+                {"class": spec.name, "cfg": public_cfg(cfg), "samples": whole.describe(), "perm": list(perm), "batch_sizes": comp,
+                 "single": obs_json(base), "permuted": obs_json(o)})
+    return None
 
 
 def rand_comp(rng, n):
@@ -111,3 +127,26 @@ def run(rep: Report):
 def search(rep: Report):
     rng = Rng(rep.seed * 17 + 1212)
     sweep(rep, rng, 12, time.time() + 120)
+
+
+def replay(payload) -> bool:
+    """True iff the property holds on the recorded case: the sample set is rebuilt, fed in one update and as the recorded
+    batch sizes (of the recorded permutation, when there is one), judged by the sweep's oracle functions."""
+    rp = payload.get("replay") or {}
+    if payload.get("kind", "failing-input") != "failing-input" or not {"class", "cfg", "samples", "batch_sizes"} <= set(rp):
+        raise ValueError(f"nothing to replay: payload kind {payload.get('kind')!r} carries no case (class, cfg, samples, batch_sizes)")
+    from ..registry import BY_NAME, Batch
+    spec, cfg = BY_NAME[rp["class"]], dict(rp["cfg"])
+    whole = Batch.from_describe(rp["samples"])
+    comp = [int(k) for k in rp["batch_sizes"]]
+    n = batch_len(spec, whole)
+    if n is None or sum(comp) != n or ("perm" in rp and sorted(rp["perm"]) != list(range(n))):
+        raise ValueError(f"nothing to replay: batch sizes {comp} / permutation do not fit the {n} recorded samples")
+    base = observe(fed(spec, cfg, [whole]))
+    if "perm" in rp:
+        v = order_oracle(spec, cfg, whole, base, [int(i) for i in rp["perm"]], comp)
+    else:
+        v = batching_oracle(spec, cfg, whole, base, comp)
+    if v is not None:
+        print(f"replay: {v[0]}: {v[1]}"[:600])
+    return v is None
